@@ -25,6 +25,33 @@ CHECKS = {
    ref="DESIGN.md section 4, C03"),
 }
 
+CHECKS.update({
+ "C13": dict(level="proof",
+   text="The lookahead mechanism is under contract: parseContext.Stop returns exactly (lookahead >= 0 && branch.cursor - cursor > lookahead) (so an attempt is abandoned only if it consumed no more than the lookahead, and the decision is monotone in the lookahead), with machine-integer overflow obligations on the threshold arithmetic; on true it has adopted the branch, on false the context is untouched. Every composite node (group, disjunction, sequence, capture, strct, union) is proved to propagate a committed error and to keep cursors monotone, so that an enclosing Stop sees it again.",
+   note=TRUST + "The step from these per-function contracts to 'a parse that succeeded with k succeeds identically with k' > k' (only Stop reads lookahead; every decision that was false for k is false for k') is a paper lemma, listed as unchecked.",
+   ref="DESIGN.md section 4, C13"),
+ "C02": dict(level="proof",
+   text="Every grammar node's Parse is proved against one interface contract: deferred captures are only ever appended, every capture a node adds targets the struct it was asked to fill, a non-match leaves position and captures untouched, branches are fresh copies with an empty capture list (Branch), are adopted only by Accept/Stop, and negation/lookahead groups never adopt their branch. strct.Parse is proved to apply exactly the captures deferred during its own parse (Apply(from)) and to leave the enclosing production's captures deferred.",
+   note=TRUST + "reflect is opaque: 'written into the AST' is modelled by which contextFieldSet entries reach setField; the grammar graph's well-formedness (wf) is axiomatised (established by the tag parser, C19). Parseable/custom productions are user code with an assumed contract.",
+   ref="DESIGN.md section 4, C02"),
+ "C10": dict(level="proof",
+   text="Token references and literals are proved to match exactly the first token from the raw cursor that is EOF, satisfies the node's own predicate (type equality; typed/case-folded literal comparison) or is not elided, to consume through that token with FastForward and to leave everything untouched otherwise; negation consumes exactly one non-elided token with Next; PeekAny/FastForward/Next/Peek contracts (C12) make every other observation a function of the non-elided sequence.",
+   note=TRUST + "The closure passed to PeekAny is linked to its body by a generated axiom; strings.EqualFold is an uninterpreted function. The whole-run statement (two inputs with equal non-elided sequences drive identical runs) is a paper lemma. Known design deviation: capture token runs start at the raw cursor (they may begin with an elided token); not claimed here.",
+   ref="DESIGN.md section 4, C10"),
+ "C11": dict(level="proof",
+   text="strct.Parse is proved to record Pos from the first non-elided token at the node's start (&tokens[nextCursor] at entry), EndPos from the raw token just after the last consumed one (&tokens[rawCursor] after the body) and Tokens == tokens[start:rawCursor] with start the raw cursor at entry and start <= end (Range never panics); capture.Parse hands Defer exactly tokens[start:rawCursor]; cursor monotonicity of every node (interface contract) gives nesting and ordering of child runs.",
+   note=TRUST + "The reflection-based field writes (maybeInject*) are opaque; what is proved is the value handed to them. Nesting/disjointness over a whole tree is a paper lemma from monotonicity.",
+   ref="DESIGN.md section 4, C11"),
+ "C06": dict(level="proof",
+   text="Panic-freedom (index, slice, nil, type-assertion, explicit panic obligations) and error shape for the runtime functions under contract: all PeekingLexer operations, StatefulLexer.Next, every node's Parse, parseContext methods, parseInto/parseOne/getElidedTypes: a non-nil error is a participle.Error or comes from user code (errOK, carried through deepestError bookkeeping), lexer token positions are exact (shared with C04), the lexing functions are non-recursive (bounded stack).",
+   note=TRUST + "Not decided: recursion depth of the parser proper and 'never hangs' beyond the per-loop measures. Assumed: the root type's node exists in the parser's type table and is well-formed; disjunction's documented 'did not progress' panic is excluded by the property's premise; Build validates Elide() names (by inspection).",
+   ref="DESIGN.md section 4, C06"),
+ "C01": dict(level="proof",
+   text="Operator-local obligations only: leaves match exactly their predicate (C10); sequence runs children in list order on the same context, first-child non-match leaves everything untouched, a later one is an UnexpectedTokenError; disjunction/union try alternatives in index order on fresh branches and adopt exactly the first success; group iterates on fresh branches; negation/lookahead test on a branch (negation then takes exactly one token); capture defers exactly once iff its child produced a value; Stop's exact threshold; parseOne's trailing-token rule. The global equality 'parse result == denotational meaning' is NOT claimed.",
+   note=TRUST + "Composition of the operator contracts into the whole-grammar meaning is not machine-checked; setField/conform value semantics are under C17.",
+   ref="DESIGN.md section 4, C01"),
+})
+
 NOT_APPLICABLE = {
  "C05": "relates two programs (generator output vs runtime lexer) for every rule set: translation validation / differential testing, not expressible as contracts on the generator's functions (DESIGN.md section 4, C05)",
 }
